@@ -64,6 +64,9 @@ pub struct WireTalk {
     /// before it answers them
     #[serde(default)]
     pub ban_before_answer: bool,
+    /// the requesters are behind NAT: their records advertise another socket than they send from
+    #[serde(default)]
+    pub nat: bool,
 }
 
 async fn run_wire(wt: &WireTalk, rep: &mut CaseReport) -> Option<(String, String)> {
@@ -83,14 +86,17 @@ async fn run_wire(wt: &WireTalk, rep: &mut CaseReport) -> Option<(String, String
         resp_mode,
         nodes_packets: 1,
         seqs: vec![1; 4],
-        nat_peers: vec![],
-        nat_kind: 0,
+        nat_peers: if wt.nat { vec![1, 2] } else { vec![] },
+        nat_kind: wt.n_req % 4,
         dual_records: false,
         foreign_enr_answer: vec![],
         v_session_timeout_ms: None,
         v_session_capacity: None,
     };
     let mut w = World::new(cfg).await;
+    if wt.nat {
+        rep.class("wire-companion/requesters-behind-nat");
+    }
     async fn deliver_all(w: &mut World) {
         let mut guard = 0;
         while !w.pool.is_empty() && guard < 2000 {
@@ -449,14 +455,14 @@ impl Property for C20 {
         let step_cases = (prop_oneof![5 => Just(true), 1 => Just(false)], proptest::collection::vec(step, 1..20), any::<bool>(), 0u8..16, 0u8..16, prop_oneof![3 => Just(false), 1 => Just(true)])
             .prop_map(|(register_events, steps, respond_after_shutdown, known, moved, dual)| Case { register_events, steps, respond_after_shutdown, known, moved, dual, wire: None });
         let svc = step_cases;
-        let companion = (prop_oneof![2 => 1u8..31, 3 => 31u8..=90], any::<bool>(), any::<bool>(), prop_oneof![2 => Just(false), 1 => Just(true)]).prop_map(|(n_req, two_peers, newest_first, ban_before_answer)| Case {
+        let companion = (prop_oneof![2 => 1u8..31, 3 => 31u8..=90], any::<bool>(), any::<bool>(), prop_oneof![2 => Just(false), 1 => Just(true)], prop_oneof![2 => Just(false), 1 => Just(true)]).prop_map(|(n_req, two_peers, newest_first, ban_before_answer, nat)| Case {
             register_events: true,
             steps: vec![],
             respond_after_shutdown: false,
             known: 0,
             moved: 0,
             dual: false,
-            wire: Some(WireTalk { n_req, two_peers, newest_first, ban_before_answer }),
+            wire: Some(WireTalk { n_req, two_peers, newest_first, ban_before_answer, nat }),
         });
         prop_oneof![150 => svc, 1 => companion].boxed()
     }
